@@ -80,6 +80,9 @@ def generate(rng, tier="quick"):
                 d["fault"] = {"kind": "reflect", "label": acc}
             steps.append(d)
         mode = "downgrade"
+    for st in steps:
+        if st["op"] == "recover" and st.get("impl") != "model" and rng.random() < 0.1:
+            st["blob_as"] = "bytearray"        # the stored row arrives in a buffer object, as released readers accept
     return {"property": PROP, "config": {"psets": [pspec], "nodes": nodes}, "steps": steps,
             "intent": {"mode": mode, "inbound": inbound}}
 
